@@ -14,7 +14,7 @@ import (
 //assume: C12.seq: the store hands out a fresh session object on every Load (what both real stores do)
 
 // stored-session loader, one request, every store/lock/provider outcome: stale sessions are refreshed or re-validated under the lock, failures drop the session and clear the cookie, a session is dropped only for a reason
-// verif: unwind=6 also=C13,C01,C14,C11,C07,C09 paths=80000
+// verif: unwind=6 also=C13,C01,C14,C11,C07,C09,C18 paths=80000
 func vh_C12_seq() {
 	nowSec := int64(ndInt("now"))
 	verifAssume(nowSec >= 1000000000 && nowSec <= 9999999999)
@@ -72,6 +72,9 @@ func vh_C12_seq() {
 					verifAssert("C12.refreshed-saved", st.saveCalls == 1 && st.savedAT == idp.newAT && st.savedRT == idp.newRT)
 					verifAssert("C12.refreshed-restamped", got.CreatedAt != nil && got.CreatedAt.Equal(vNow()) && st.savedHadCA && st.savedAtSec == nowSec)
 					verifAssert("C12.save-under-lock", st.lockHeldAtSave)
+					// the refreshed cookie is built from the same request as every other cookie: the
+					// store sees the request's scope (reverse-proxy flag, hence cookie domain and Secure)
+					verifAssert("C18.refresh.save-sees-the-request-scope", st.savedScope != nil && st.savedScope == middlewareapi.GetRequestScope(req))
 				}
 				if idp.refreshKind == 1 || idp.refreshKind == 3 {
 					verifAssert("C12.not-refreshed-not-saved", st.saveCalls == 0)
